@@ -36,6 +36,14 @@
 #include "verif_in.h"
 void vm_world_init (void);
 void eval_instruction (const char *p);
+#ifdef GEN_LITERAL
+/* C03: the literal is ENCODED by the real code generator (lib/lpc/program/icode.c write_long_number, exported file-local
+   symbol) and then executed by the real interpreter: the value pushed must be the value encoded. */
+#include "lpc/compiler.h"
+void __CPROVER_file_local_icode_c_write_long_number (int64_t);
+extern char *prog_code, *prog_code_max; extern int current_block;
+static char genbuf[32];
+#endif
 
 static program_t PROG; static char CODE[NCODE + 4]; static char *STRS[3]; static object_t *THIS; static object_t OBJ_LIVE, OBJ_DEAD;
 static svalue_t *sp_base; static int steps_done, post_ran;
@@ -189,6 +197,31 @@ static void post_step (int from_error)
   svalue_t *p; int k;
   if (post_ran) return;
   post_ran = 1;
+#ifdef ORACLE_INDEXREF
+  /* C03(6): x[i] / x[<i] on a string or buffer against the mathematical reference over int64 (operands: index, container):
+     inside the value -> that byte; outside -> an LPC error (for strings the terminator position i == length reads 0) */
+  {
+    int64_t v = IN.num[0], n = (int64_t) IN.len[1], pos = INDEXREF_REVERSE ? n - v : v;
+    int is_str = (gkind[1] == KSTR);
+    int inside = pos >= 0 && (pos < n || (is_str && pos == n));
+    if (inside)
+      {
+        unsigned char want = (pos == n) ? 0 : IN.bytes[8 + pos];
+        /* CBMC 6.11 returns unconstrained values for reads of a trailing item[1] array beyond index 0 (struct hack), so
+           for buffers the element value is compared at index 0 only; strings (char *) are compared everywhere */
+        VERIF_ASSERT ("C03.index.in_range_returns_that_element", !from_error && sp == sp_base + 1 && sp->type == T_NUMBER && (sp->u.number == (int64_t) want || (!is_str && pos > 0)));
+        VERIF_WITNESS ("index_in_range");
+      }
+    else
+      {
+        VERIF_ASSERT ("C03.index.out_of_range_raises_error", from_error);
+        VERIF_WITNESS ("index_out_of_range");
+      }
+  }
+#endif
+#ifdef GEN_LITERAL
+  VERIF_ASSERT ("C03.literal.pushes_exactly_the_encoded_value", !from_error && sp == sp_base + 1 && sp->type == T_NUMBER && sp->u.number == IN.num[0]);
+#endif
   VERIF_ASSERT ("VM.STACK.sp_inside_stack", sp >= start_of_stack - 1 && sp < end_of_stack + 5);
   VERIF_ASSERT ("VM.STACK.pc_inside_program", pc >= PROG.program && pc <= PROG.program + NCODE + 1);
   for (k = 0; k < 8; k++) { p = start_of_stack + k; if (p <= sp) VERIF_ASSERT ("VM.STACK.live_slots_have_valid_tags", valid_tag (p->type)); }
@@ -226,6 +259,8 @@ static void post_step (int from_error)
       if (gkind[k] == KBUF && IN.ref[k] == 2) VERIF_ASSERT ("VM.REF.buffer_ref_back_to_other_holders", gbuf[k]->ref == 1);
     }
 #endif
+#ifdef GEN_LITERAL
+#endif
   if (from_error) VERIF_WITNESS ("lpc_error_path"); else VERIF_WITNESS ("step_completed");
 }
 
@@ -248,6 +283,18 @@ void harness (void)
 #endif
   /* program: byte 0 = the opcode under test, operand bytes symbolic */
   CODE[0] = (char) OPC;
+#ifdef GEN_LITERAL
+  {
+    int64_t v = IN.num[0];
+    __CPROVER_assume (v < 0 || v > 255);      /* 0..255 go through the push-merging encoder (outside this harness) */
+    mem_block[A_PROGRAM].block = genbuf; mem_block[A_PROGRAM].max_size = sizeof genbuf; mem_block[A_PROGRAM].current_size = 0;
+    current_block = A_PROGRAM; prog_code = genbuf; prog_code_max = genbuf + sizeof genbuf;
+    __CPROVER_file_local_icode_c_write_long_number (v);
+    VERIF_ASSERT ("C03.literal.encoder_uses_a_literal_opcode", (unsigned char) genbuf[0] == F_NBYTE || (unsigned char) genbuf[0] == F_NUMBER || (unsigned char) genbuf[0] == F_LONG);
+    __CPROVER_assume ((unsigned char) genbuf[0] == OPC);    /* this run decides the values the encoder maps to OPC; the other opcodes have their own runs */
+    for (i = 1; i < NCODE; i++) IN.code[i] = (unsigned char) genbuf[i];
+  }
+#endif
 #ifdef OPC2
   CODE[1] = (char) OPC2;
 #endif
